@@ -304,6 +304,9 @@ func crashSite(stderr string) string {
 			for j := 0; j+1 < len(rest) && n < 60; j += 2 {
 				n++
 				fn := lib.PanicSite(rest[j])
+				if strings.Count(fn, "(") != strings.Count(fn, ")") || strings.HasSuffix(fn, "*") || strings.HasSuffix(fn, ".") {
+					continue // a line cut by the stderr buffer
+				}
 				if fn != "?" && (best == "" || fn < best) {
 					best = fn
 				}
